@@ -153,10 +153,13 @@ pub fn run_c16(seed: u64, run: u64, stats: &mut Stats) -> Vec<Violation> {
         calls_after_fault: 0,
     };
     // chunking used for the hard-fault sweep of this run (swarm)
-    let sweep_chunkings: Vec<Chunking> = match cfg.below(4) {
+    let block = *cfg.pick(&[2usize, 3, 4, 5, 7, 8, 12, 13, 16, 20, 32]);
+    let sweep_chunkings: Vec<Chunking> = match cfg.below(6) {
         0 => vec![Chunking::Whole],
         1 => vec![Chunking::Whole, Chunking::One],
         2 => vec![Chunking::Whole, Chunking::RandomEintr(chunk_seed)],
+        3 => vec![Chunking::Whole, Chunking::Fixed(block)],
+        4 => vec![Chunking::Fixed(block)],
         _ => vec![Chunking::Random(chunk_seed)],
     };
     let benign = [
@@ -164,6 +167,7 @@ pub fn run_c16(seed: u64, run: u64, stats: &mut Stats) -> Vec<Violation> {
         Chunking::One,
         Chunking::Random(chunk_seed),
         Chunking::RandomEintr(chunk_seed ^ 1),
+        Chunking::Fixed(block),
     ];
     macro_rules! report {
         ($case:expr, $f:expr) => {{
@@ -1056,6 +1060,7 @@ pub fn run_c06(seed: u64, run: u64, stats: &mut Stats) -> Vec<Violation> {
             Chunking::Whole,
             Chunking::One,
             Chunking::RandomEintr(chunk_seed),
+            Chunking::Fixed(2 + (chunk_seed % 15) as usize),
         ] {
             evals += 1;
             let case = Case::Cmp {
